@@ -68,6 +68,7 @@ type addrDef struct {
 	Script []byte
 	Type   int // wallet.IDX_*; -1 non standard
 	Addr   func() *btc.BtcAddr
+	Twin   bool // near-miss twin of another entry: only ever a static background output and a query, never a focus
 }
 
 func key(n int) []byte {
@@ -108,14 +109,28 @@ func initAlphabet() {
 		}
 	}
 	addrs = []addrDef{
-		{"P2PKH", cat([]byte{0x76, 0xa9, 0x14}, kh, []byte{0x88, 0xac}), wallet.IDX_P2KH, legacy(0, kh)},
-		{"P2SH", cat([]byte{0xa9, 0x14}, sh, []byte{0x87}), wallet.IDX_P2SH, legacy(5, sh)},
-		{"P2WPKH", cat([]byte{0x00, 0x14}, wkh), wallet.IDX_P2WKH, sw(0, wkh)},
-		{"P2WSH", cat([]byte{0x00, 0x20}, wsh), wallet.IDX_P2WSH, sw(0, wsh)},
-		{"P2TR", cat([]byte{0x51, 0x20}, tr), wallet.IDX_P2TAP, sw(1, tr)},
+		{"P2PKH", cat([]byte{0x76, 0xa9, 0x14}, kh, []byte{0x88, 0xac}), wallet.IDX_P2KH, legacy(0, kh), false},
+		{"P2SH", cat([]byte{0xa9, 0x14}, sh, []byte{0x87}), wallet.IDX_P2SH, legacy(5, sh), false},
+		{"P2WPKH", cat([]byte{0x00, 0x14}, wkh), wallet.IDX_P2WKH, sw(0, wkh), false},
+		{"P2WSH", cat([]byte{0x00, 0x20}, wsh), wallet.IDX_P2WSH, sw(0, wsh), false},
+		{"P2TR", cat([]byte{0x51, 0x20}, tr), wallet.IDX_P2TAP, sw(1, tr), false},
 		// non-standard: starts like a P2TR program but is a plain (anyone-can-spend) script
-		{"NONSTD", cat([]byte{0x51, 0x20}, tr, []byte{0x75, 0x51}), -1, nil},
+		{"NONSTD", cat([]byte{0x51, 0x20}, tr, []byte{0x75, 0x51}), -1, nil, false},
 	}
+	// near-miss twins (background outputs in prefix block 103 and queries of every oracle
+	// evaluation): witness programs that share their first 20 bytes with the P2WSH / P2TR entry
+	// and differ only after them - two different addresses whose outputs must never be mixed -
+	// and 25 / 23-byte scripts that differ from the P2PKH / P2SH entry in one opcode only, which
+	// pay to no address
+	ee := bytes.Repeat([]byte{0xee}, 12)
+	wsh2, tr2 := cat(wsh[:20], ee), cat(tr[:20], ee)
+	addrs = append(addrs,
+		addrDef{"P2WSH-twin-same-first-20-bytes", cat([]byte{0x00, 0x20}, wsh2), wallet.IDX_P2WSH, sw(0, wsh2), true},
+		addrDef{"P2TR-twin-same-first-20-bytes", cat([]byte{0x51, 0x20}, tr2), wallet.IDX_P2TAP, sw(1, tr2), true},
+		addrDef{"P2PKH-lookalike-op-equal", cat([]byte{0x76, 0xa9, 0x14}, kh, []byte{0x87, 0xac}), -1, nil, true},
+		addrDef{"P2PKH-lookalike-op-nop", cat([]byte{0x76, 0xa9, 0x14}, kh, []byte{0x61, 0xac}), -1, nil, true},
+		addrDef{"P2SH-lookalike-op-equalverify", cat([]byte{0xa9, 0x14}, sh, []byte{0x88}), -1, nil, true},
+	)
 }
 
 // classify is the harness's own script classifier (independent of lib/script).
@@ -1766,7 +1781,9 @@ func main() {
 		}
 	}
 	for i := range addrs {
-		x.pdir[i] = buildPrefix(i)
+		if !addrs[i].Twin {
+			x.pdir[i] = buildPrefix(i)
+		}
 	}
 	if *replayFile != "" {
 		code := replay(x, *replayFile)
@@ -1812,7 +1829,7 @@ func main() {
 	var wg sync.WaitGroup
 	for focus := range addrs {
 		fname := addrs[focus].Name
-		if f := os.Getenv("C17_FOCUS"); f != "" && f != fname {
+		if f := os.Getenv("C17_FOCUS"); (f != "" && f != fname) || addrs[focus].Twin {
 			continue
 		}
 		d := shallowDepth
